@@ -648,6 +648,11 @@ class Executor:
 
     def ev_Compare(self, n, st, spec):
         left = self.ev(n.left, st, spec)
+        if len(n.ops) == 1 and not isinstance(n.ops[0], (ast.In, ast.NotIn, ast.Is, ast.IsNot)):
+            right0 = self.ev(n.comparators[0], st, spec)
+            if isinstance(left, VRef) or isinstance(right0, VRef):
+                op = n.ops[0]
+                return self.amap(st, lambda x, y: VBool(self.cmp(op, x, y, n)), [left, right0], "b", n, spec)
         res = []
         pushed = 0
         try:
@@ -1320,6 +1325,15 @@ class Executor:
                 return self.amap(st, lambda x, y: VFloat(xr.atan2(to_float(x), to_float(y))), args[:2], "f", n, spec)
             if fn in ("arctan2", "atan2"):
                 return VFloat(xr.atan2(to_float(args[0], n), to_float(args[1], n)))
+            if fn in ("any", "all") and isinstance(args[0], VRef) and not kwargs and len(args) == 1:
+                a = st.heap[args[0].cell]
+                if a.et != "b":
+                    raise Unsupported("np.%s of non-bool array" % fn, n)
+                ks = [z3.Int(fresh_name("k")) for _ in range(a.ndim)]
+                rng = z3.And(*[z3.And(k >= 0, k < sh) for k, sh in zip(ks, a.shape)])
+                if fn == "any":
+                    return VBool(z3.Exists(ks, z3.And(rng, a.select(ks))))
+                return VBool(z3.ForAll(ks, z3.Implies(rng, a.select(ks))))
             if fn == "gradient" and isinstance(args[0], VRef) and len(args) == 1 and not kwargs:
                 return self.np_gradient(args[0], st, n, spec)
             if fn in ("isnan",) and not isinstance(args[0], VRef):
